@@ -468,6 +468,34 @@ def interpolate (rho : α) (sym : Bool) (frm to : Pose α) (t : α) : Option (Po
     | .path P => some (interpPath rho frm P t)
     | _ => none
 
+/-- `::dubins(d, alpha, beta)` with the repair proposed for finding F66 (notes/C14-fix-F66.diff): the classification sees
+the snapped angles, the exhaustive search the unsnapped ones.  Used only by the driver's `distfix` op, so that the check can
+ask what the repaired code would return. -/
+def dubinsFix66 (d alpha beta : α) : Res α :=
+  if degenerate d alpha beta then .path (zeroPath d)
+  else
+    let a := mod2pi alpha
+    let b := mod2pi beta
+    if isLongPath d a b then dubinsClassification d a b
+    else Res.ofOpt (dubinsExhaustive mod2pi d (mod2piExact alpha) (mod2piExact beta))
+
+def dubinsStatesFix66 (rho : α) (s1 s2 : Pose α) : Res α :=
+  let dx := s2.x - s1.x
+  let dy := s2.y - s1.y
+  let d := Num.sqrt (dx * dx + dy * dy) / rho
+  let th := Num.atan2 dy dx
+  dubinsFix66 d (s1.th - th) (s2.th - th)
+
+def distanceFix66 (rho : α) (sym : Bool) (s1 s2 : Pose α) : Option α :=
+  match (dubinsStatesFix66 rho s1 s2).len with
+  | none => none
+  | some l12 =>
+    if sym then
+      match (dubinsStatesFix66 rho s2 s1).len with
+      | none => none
+      | some l21 => some (rho * Num.min l12 l21)
+    else some (rho * l12)
+
 /-- the caching overload `interpolate(from, to, t, firstTime, path, state)` called repeatedly with the same `firstTime` /
 `path` variables: while `firstTime` is still true an endpoint `t` returns the endpoint *without* touching the cache; the
 first interior `t` computes and stores the path and clears `firstTime`; every later call (endpoint or not) goes through
